@@ -20,8 +20,18 @@ Class NumOps := {
   fopp : F -> F; finv : F -> F;
   fabs : F -> F; fsqrt : F -> F;
   fofZ : Z -> F;
-  fpi : F;                       (* binary64 pi in the executable instance, PI over R *)
   feqb : F -> F -> bool; fltb : F -> F -> bool; fleb : F -> F -> bool
+}.
+
+(* the tolerance literals of the wrappers.  Theorems quantify over ALL values; the executable instance
+   takes the values that translate/gen_wraptol.py reads from the source on every run (Gen/GenWrapTol.v) *)
+Class Tols {N : NumOps} := {
+  t_cub_surf : F;                          (* RTOL_SURFACE of BHJM_magnet_cuboid *)
+  t_cyl_hull_r : F; t_cyl_hull_a : F;      (* np.isclose(r, 1, rtol, atol) *)
+  t_cyl_base_r : F; t_cyl_base_a : F;      (* np.isclose(abs(z), z0, rtol, atol) *)
+  t_seg_close_r : F; t_seg_close_a : F;    (* close() of field_BH_cylinder_segment *)
+  t_seg_r_lo : F; t_seg_r_hi : F; t_seg_z_lo : F; t_seg_z_hi : F;   (* the four 1e-14 margins *)
+  t_cir_sing : F                           (* abs(r - r0) < 1e-15 * r0 of BHJM_circle *)
 }.
 
 Declare Scope num_scope.
@@ -38,7 +48,7 @@ Infix "<=?" := fleb : num_scope.
 Inductive fld := FB | FH | FJ | FM.
 
 Section Wrap.
-Context {N : NumOps}.
+Context {N : NumOps} {T : Tols}.
 Local Open Scope num_scope.
 
 Definition vec : Type := (F * F * F)%type.
@@ -53,7 +63,6 @@ Definition vdot (a b : vec) : F := let '(a1, a2, a3) := a in let '(b1, b2, b3) :
 Definition fneqb (x y : F) : bool := negb (x =? y).
 Definition fgtb (x y : F) : bool := y <? x.
 Definition two : F := fofZ 2.
-Definition tol (k : Z) : F := f1 / fofZ (10 ^ k).        (* 1e-k *)
 Definition pol_is_null (p : vec) : bool :=                (* (pol_x == 0) * (pol_y == 0) * (pol_z == 0) *)
   let '(px, py, pz) := p in (px =? f0) && (py =? f0) && (pz =? f0).
 (* np.isclose(a, b, rtol, atol) : |a - b| <= atol + rtol * |b| *)
@@ -71,13 +80,13 @@ Record cub_row := { cu_obs : vec; cu_dim : vec; cu_pol : vec }.
 Definition cub_inside (r : cub_row) : bool :=
   let '(x, y, z) := cu_obs r in let '(dx, dy, dz) := cu_dim r in
   let a := fabs dx / two in let b := fabs dy / two in let c := fabs dz / two in
-  let rt := tol 15 in
+  let rt := t_cub_surf in
   (fabs x - a <? rt * a) && (fabs y - b <? rt * b) && (fabs z - c <? rt * c).
 
 Definition cub_gen (r : cub_row) : bool :=
   let '(x, y, z) := cu_obs r in let '(dx, dy, dz) := cu_dim r in
   let a := fabs dx / two in let b := fabs dy / two in let c := fabs dz / two in
-  let rt := tol 15 in
+  let rt := t_cub_surf in
   let pol_not_null := negb (pol_is_null (cu_pol r)) in
   let dim_not_null := fneqb (a * b * c) f0 in
   let xd := fabs x - a in let yd := fabs y - b in let zd := fabs z - c in
@@ -100,7 +109,8 @@ Definition bhjm_cuboid (core : cub_row -> vec) (mu0 : F) (f : fld) (r : cub_row)
 (* ------------------------------------------------------------------ Cylinder
    row after cart_to_cyl_coordinates: cy_r = sqrt(x^2+y^2), (cy_c, cy_s) = (cos phi, sin phi),
    cy_pxy = sqrt(pol_x^2 + pol_y^2) as numpy computed them *)
-Record cyl_row := { cy_r : F; cy_c : F; cy_s : F; cy_z : F; cy_d : F; cy_h : F; cy_pol : vec; cy_pxy : F }.
+Record cyl_row := { cy_r : F; cy_c : F; cy_s : F; cy_z : F; cy_d : F; cy_h : F; cy_pol : vec; cy_pxy : F;
+                    cy_dphi : F (* phi - arctan2(pol_y, pol_x) as computed; only the diametral core sees it *) }.
 
 Definition cyl_scaled (r : cyl_row) : F * F * F :=          (* (z0, r, z) made dimensionless *)
   let r0 := cy_d r / two in let z0 := cy_h r / two in (z0 / r0, cy_r r / r0, cy_z r / r0).
@@ -110,7 +120,7 @@ Definition cyl_inside0 (r : cyl_row) : bool :=
 
 Definition cyl_on_edge (r : cyl_row) : bool :=
   let '(z0, rr, z) := cyl_scaled r in
-  isclose rr f1 (tol 15) f0 && isclose (fabs z) z0 (tol 15) f0.
+  isclose rr f1 t_cyl_hull_r t_cyl_hull_a && isclose (fabs z) z0 t_cyl_base_r t_cyl_base_a.
 
 Section CylCores.
 Variable tvcore : F -> F -> F -> cyl_row -> vec.   (* magnet_cylinder_diametral_Hfield(z0, r, z, phi - tetta) *)
@@ -142,27 +152,29 @@ End CylCores.
 
 (* ------------------------------------------------------------------ CylinderSegment
    row: cs_r, cs_phi = sqrt / arctan2 of the observer as numpy computed them; (cs_c, cs_s) = cos/sin of cs_phi *)
-Record seg_row := { cs_r : F; cs_phi : F; cs_c : F; cs_s : F; cs_z : F;
+Record seg_row := { cs_r : F; cs_phi : F; cs_phio2 : F (* phi - sign(phi)*2*pi as computed *);
+                    cs_c : F; cs_s : F; cs_z : F;
                     cs_r1 : F; cs_r2 : F; cs_h : F; cs_phi1 : F; cs_phi2 : F;   (* dimension, degrees *)
-                    cs_pol : vec; cs_pxy : F }.
+                    cs_phi1r : F; cs_phi2r : F;                                  (* phi / 180 * pi as computed *)
+                    cs_pol : vec; cs_pxy : F; cs_pabs : F (* sqrt(px^2+py^2+pz^2) as computed *);
+                    cs_dphi : F (* only used by the 360-degree fallback to Cylinder *) }.
 
-Definition close12 (a b : F) : bool := isclose a b (tol 12) (tol 12).   (* close() of the module *)
+Definition close12 (a b : F) : bool := isclose a b t_seg_close_r t_seg_close_a.   (* close() of the module *)
 
 Definition seg_masks (r : seg_row) : bool * bool :=     (* (mask_not_on_surf, mask_inside) *)
   let r1 := fabs (cs_r1 r) in let r2 := fabs (cs_r2 r) in let h := fabs (cs_h r) in
   let z1 := (- h) / two in let z2 := h / two in
-  let phi1 := cs_phi1 r / fofZ 180 * fpi in
-  let phi2 := cs_phi2 r / fofZ 180 * fpi in
+  let phi1 := cs_phi1r r in
+  let phi2 := cs_phi2r r in
   let rr := cs_r r in let z := cs_z r in
   let phio1 := cs_phi r in
-  let phio2 := cs_phi r - fsignF (cs_phi r) * two * fpi in
+  let phio2 := cs_phio2 r in
   let mask_phi1 := close12 phio1 phi1 || close12 phio2 phi1 in
   let mask_phi2 := close12 phio1 phi2 || close12 phio2 phi2 in
-  let e14 := tol 14 in
-  let r_in := (r1 - e14 <? rr) && (rr <? r2 + e14) in
+  let r_in := (r1 - t_seg_r_lo <? rr) && (rr <? r2 + t_seg_r_hi) in
   let phi_in := negb (Z.eqb (fsign (phio1 - phi1)) (fsign (phio1 - phi2)))
              || negb (Z.eqb (fsign (phio2 - phi1)) (fsign (phio2 - phi2))) in
-  let z_in := (z1 - e14 <? z) && (z <? z2 + e14) in
+  let z_in := (z1 - t_seg_z_lo <? z) && (z <? z2 + t_seg_z_hi) in
   let surf_z := (close12 z z1 || close12 z z2) && phi_in && r_in in
   let surf_r := (close12 rr r1 || close12 rr r2) && phi_in && z_in in
   let surf_phi := (mask_phi1 || mask_phi2) && r_in && z_in in
@@ -200,7 +212,7 @@ Variable axcore : F -> F -> F -> cyl_row -> vec.
 Definition seg_is_segment (r : seg_row) : bool := cs_phi2 r - cs_phi1 r <? fofZ 360.
 Definition seg_as_cyl (r : seg_row) (rad : F) : cyl_row :=
   {| cy_r := cs_r r; cy_c := cs_c r; cy_s := cs_s r; cy_z := cs_z r; cy_d := two * rad; cy_h := cs_h r;
-     cy_pol := cs_pol r; cy_pxy := cs_pxy r |}.
+     cy_pol := cs_pol r; cy_pxy := cs_pxy r; cy_dphi := cs_dphi r |}.
 
 Definition bhjm_seg_internal_row (mu0 : F) (f : fld) (any_off : bool) (r : seg_row) : vec :=
   if seg_is_segment r then bhjm_seg_row mu0 f any_off r
@@ -307,28 +319,30 @@ Record msh_row := { ms_obs : vec; ms_mesh : list tri; ms_pol : vec }.
 Variable mesh_inside : list tri -> vec -> bool.      (* mask_inside_trimesh(points, faces) per point *)
 Variable mesh_eqb : list tri -> list tri -> bool.    (* same shape and np.all(mesh_a == mesh_b) *)
 
-(* the grouping loop of in_out='auto', literally: returns for every row index the index prev_ind
-   whose mesh is used for its inside test *)
+(* the grouping loop of in_out='auto', literally (after commit 8fe828e):
+     prev_ind = 0
+     for new_ind in range(1, len(BHJM) + 1):
+         if new_ind == len(BHJM) or mesh[new_ind] differs from mesh[prev_ind]:
+             rows prev_ind:new_ind are tested against mesh[prev_ind]; prev_ind = new_ind
+   returns the slices (from, to) evaluated so far; slice (a, b) is tested against mesh[a] *)
 Fixpoint group_loop (meshes : list (list tri)) (n new_ind prev_ind : nat) (fuel : nat)
-  (acc : list (nat * nat * nat))            (* (from, to, mesh index) slices evaluated so far *)
-  : list (nat * nat * nat) :=
+  (acc : list (nat * nat)) : list (nat * nat) :=
   match fuel with
   | O => acc
   | S fuel' =>
-    let last := Nat.eqb new_ind (n - 1) in
-    let differs := negb (mesh_eqb (nth new_ind meshes []) (nth prev_ind meshes [])) in
-    if last || differs then
-      let upto := if last then n else new_ind in
-      group_loop meshes n (S new_ind) upto fuel' (acc ++ [(prev_ind, upto, prev_ind)])
+    if Nat.eqb new_ind n || negb (mesh_eqb (nth new_ind meshes []) (nth prev_ind meshes []))
+    then group_loop meshes n (S new_ind) new_ind fuel' (acc ++ [(prev_ind, new_ind)])
     else group_loop meshes n (S new_ind) prev_ind fuel' acc
   end.
 
-Definition mesh_used (meshes : list (list tri)) (i : nat) : nat :=   (* index of the mesh tested for row i *)
-  let n := length meshes in
-  let sl := group_loop meshes n 0 0 n [] in
-  match find (fun s => let '(a, b, _) := s in Nat.leb a i && Nat.ltb i b) sl with
-  | Some (_, _, m) => m
-  | None => i
+Definition mesh_slices (meshes : list (list tri)) : list (nat * nat) :=
+  let n := length meshes in group_loop meshes n 1 0 n [].
+
+(* index of the mesh tested for row i; None: the loop never visits row i (its polarization is never added) *)
+Definition mesh_used (meshes : list (list tri)) (i : nat) : option nat :=
+  match find (fun s : nat * nat => let '(a, b) := s in Nat.leb a i && Nat.ltb i b) (mesh_slices meshes) with
+  | Some (a, _) => Some a
+  | None => None
   end.
 
 Definition msh_base (mu0 : F) (f : fld) (r : msh_row) : vec :=        (* sum of the faces' B, or zeros *)
@@ -337,22 +351,28 @@ Definition msh_base (mu0 : F) (f : fld) (r : msh_row) : vec :=        (* sum of 
   | _ => vzero
   end.
 
+Definition msh_ins (io : inout) (meshes : list (list tri)) (i : nat) (r : msh_row) : bool :=
+  match io with
+  | Auto => match mesh_used meshes i with
+            | Some k => mesh_inside (nth k meshes []) (ms_obs r)
+            | None => false end
+  | Inside => true
+  | Outside => false
+  end.
+
+Definition bhjm_trimesh_row (mu0 : F) (io : inout) (f : fld) (meshes : list (list tri)) (ir : nat * msh_row) : vec :=
+  let '(i, r) := ir in
+  let base := msh_base mu0 f r in
+  match f with
+  | FH => vdivs base mu0                                         (* returns BEFORE the inside test *)
+  | _ =>
+    let v := if msh_ins io meshes i r then vadd base (ms_pol r) else base in
+    match f with FM => vdivs v mu0 | _ => v end
+  end.
+
 Definition bhjm_trimesh_batch (mu0 : F) (io : inout) (f : fld) (rows : list msh_row) : list vec :=
   let meshes := map ms_mesh rows in
-  map (fun ir : nat * msh_row =>
-         let '(i, r) := ir in
-         let base := msh_base mu0 f r in
-         match f with
-         | FH => vdivs base mu0
-         | _ =>
-           let ins := match io with
-                      | Auto => mesh_inside (nth (mesh_used meshes i) meshes []) (ms_obs r)
-                      | Inside => true
-                      | Outside => false end in
-           let v := if ins then vadd base (ms_pol r) else base in
-           match f with FM => vdivs v mu0 | _ => v end
-         end)
-      (combine (seq 0 (length rows)) rows).
+  map (bhjm_trimesh_row mu0 io f meshes) (combine (seq 0 (length rows)) rows).
 End TriCore.
 
 (* ------------------------------------------------------------------ Circle *)
@@ -361,7 +381,7 @@ Record cir_row := { ci_r : F; ci_c : F; ci_s : F; ci_z : F; ci_d : F; ci_i : F }
 Definition cir_r0 (r : cir_row) : F := fabs (ci_d r / two).
 Definition cir_mask1 (r : cir_row) : bool := cir_r0 r =? f0.
 Definition cir_mask2 (r : cir_row) : bool :=
-  (fabs (ci_r r - cir_r0 r) <? tol 15 * cir_r0 r) && (ci_z r =? f0).
+  (fabs (ci_r r - cir_r0 r) <? t_cir_sing * cir_r0 r) && (ci_z r =? f0).
 Definition cir_mask3 (r : cir_row) : bool := ci_r r =? f0.
 Definition cir_general (r : cir_row) : bool := negb ((cir_mask1 r || cir_mask2 r) || cir_mask3 r).
 
@@ -423,28 +443,32 @@ Definition bhjm_dipole (mu0 : F) (f : fld) (r : dip_row) : vec :=
 End DipCore.
 
 (* ------------------------------------------------------------------ BaseMagnet excitation attributes
-   (class_BaseExcitations.py): two co-dependent attributes; check_format_input_vector(allow_None=True)
-   returns None for None, the arithmetic on None then raises TypeError AFTER the first assignment *)
+   (class_BaseExcitations.py, after commit e4a0461): two co-dependent attributes;
+   check_format_input_vector(allow_None=True) returns None for None, and then BOTH attributes become None *)
 Record exc := { e_pol : option vec; e_mag : option vec }.
 Inductive assign := SetPol (v : option vec) | SetMag (v : option vec).
-Inductive outcome := Done | RaisedTypeError.
 
 Definition exc_init : exc := {| e_pol := None; e_mag := None |}.
 
 (* c_mul : constant of `self._polarization = self._magnetization * c`
    c_div : constant of `self._magnetization = self._polarization / c` *)
-Definition exc_step (c_mul c_div : F) (s : exc) (a : assign) : exc * outcome :=
+Definition exc_step (c_mul c_div : F) (s : exc) (a : assign) : exc :=
   match a with
-  | SetMag (Some m) => ({| e_pol := Some (vmuls m c_mul); e_mag := Some m |}, Done)
-  | SetMag None => ({| e_pol := e_pol s; e_mag := None |}, RaisedTypeError)
-  | SetPol (Some p) => ({| e_pol := Some p; e_mag := Some (vdivs p c_div) |}, Done)
-  | SetPol None => ({| e_pol := None; e_mag := e_mag s |}, RaisedTypeError)
+  | SetMag (Some m) => {| e_pol := Some (vmuls m c_mul); e_mag := Some m |}
+  | SetMag None => {| e_pol := None; e_mag := None |}
+  | SetPol (Some p) => {| e_pol := Some p; e_mag := Some (vdivs p c_div) |}
+  | SetPol None => {| e_pol := None; e_mag := None |}
   end.
 
 Definition exc_run (c_mul c_div : F) (s : exc) (h : list assign) : exc :=
-  fold_left (fun s a => fst (exc_step c_mul c_div s a)) h s.
+  fold_left (exc_step c_mul c_div) h s.
 
-Definition is_vector_assign (a : assign) : bool :=
-  match a with SetPol (Some _) | SetMag (Some _) => true | _ => false end.
+(* the relation the property states for the attributes: both unset, or polarization = mu0 * magnetization *)
+Definition exc_sync (mu0 : F) (s : exc) : Prop :=
+  match e_pol s, e_mag s with
+  | None, None => True
+  | Some p, Some m => p = vmuls m mu0
+  | _, _ => False
+  end.
 
 End Wrap.
